@@ -512,7 +512,7 @@ def _published_limits():
     return None
 
 
-def _r7(ctx, rep):
+def _r7(ctx, rep, R="R7"):
     prog = ctx.prog
     f = prog.own_method("BaseOrderPackage", "orders")
     body = [s for s in f.node.body if not (isinstance(s, ast.Expr) and isinstance(s.value, ast.Constant))]
@@ -530,17 +530,17 @@ def _r7(ctx, rep):
         detail = "filter: %s over %s" % (conds, utext(g.iter))
     else:
         raise AnalysisError("BaseOrderPackage.orders: shape not understood (expected one list comprehension)")
-    rep.check(good, "R7", key(f, None, "orders drops exactly the VIOLATION orders, order preserved"), f, None, detail)
+    rep.check(good, R, key(f, None, "orders drops exactly the VIOLATION orders, order preserved"), f, None, detail)
     it = prog.own_method("BaseOrderPackage", "__iter__")
     ln = prog.own_method("BaseOrderPackage", "__len__")
-    rep.check(utext(it.node.body[-1]) == "return iter(self.orders)", "R7",
+    rep.check(utext(it.node.body[-1]) == "return iter(self.orders)", R,
               key(it, None, "iteration goes through the filter"), it)
-    rep.check(utext(ln.node.body[-1]) == "return len(self.orders)", "R7",
+    rep.check(utext(ln.node.body[-1]) == "return len(self.orders)", R,
               key(ln, None, "length goes through the filter"), ln)
     # no subclass overrides the filter
     for sc in prog.cls("BaseOrderPackage").all_subclasses():
         for nm in ("orders", "__iter__", "__len__"):
-            rep.check(nm not in sc.methods, "R7", "%s does not override %s" % (sc.name, nm), None, None)
+            rep.check(nm not in sc.methods, R, "%s does not override %s" % (sc.name, nm), None, None)
 
 
 _T = "flumine/execution/transaction.py"
